@@ -111,6 +111,32 @@ def run_one(ctx, res, j, xs, bucket=None):
                                        case=dict(journal=text), observed=str(bad), required='zero in every commodity'))
 
 
+def exit_status_across_files(ctx, res, rng, j, xs):
+    """the journal with a rejected transaction in it, followed by an `include` of a clean file, or given as the first of two
+    -f files, or itself included from a clean file: wherever the unbalanced transaction sits, ledger exits non-zero and
+    prints no report (judged on ledger's behaviour alone)"""
+    body = '\n'.join(x.text(i) for i, x in enumerate(xs))
+    clean = '2020/12/30 clean\n    Assets:Cash    $1.00\n    Equity:Open\n'
+    k = rng.randrange(4)
+    main, inc = ctx.path('C01_st_main.dat'), ctx.path('C01_st_inc.dat')
+    args = ['-f', main]
+    if k == 0:
+        open(main, 'w').write(body + '\n\ninclude C01_st_inc.dat\n'); open(inc, 'w').write(clean)
+    elif k == 1:
+        open(main, 'w').write(clean + '\ninclude C01_st_inc.dat\n\n' + clean.replace('clean', 'clean2')); open(inc, 'w').write(body)
+    elif k == 2:
+        open(main, 'w').write(body); open(inc, 'w').write(clean); args += ['-f', inc]
+    else:
+        open(main, 'w').write(clean); open(inc, 'w').write(body); args += ['-f', inc]
+    st, out, err = lib.run_ledger(args + ['bal'])
+    res.evaluations += 1
+    res.count('status-layout:%d' % k)
+    if st == 0 or out.strip():
+        res.violations.append(dict(key='unbalanced-exit-zero:across-files', desc='a transaction that does not balance sits in %s, yet ledger exits %s and prints %d bytes of report'
+                                   % (['the main file before an include', 'an included file', 'the first of two -f files', 'the second of two -f files'][k], st, len(out)),
+                                   case=dict(journal=body, layout=k), observed='status %s, %d bytes on stdout' % (st, len(out)), required='non-zero status, no report'))
+
+
 def automated(ctx, res, rng, n):
     """journals with automated transactions (the C16 generator: rules of real, [balanced] and (virtual) lines in every
     order, balanced or not).  Judged on ledger's own rows alone: whatever a rule added, the postings of an ADMITTED
@@ -160,6 +186,8 @@ def run(ctx, n_override=None):
         else:
             xs = gen_journal(rng)
         run_one(ctx, res, j, xs)
+        if j % 4 == 1 and any(classify(x) == 'reject' for x in xs):
+            exit_status_across_files(ctx, res, rng, j, xs)
     automated(ctx, res, rng, max(20, n // 4))
     return res
 
